@@ -191,6 +191,16 @@ ResetBatch ==   \* the micro-step counter is NOT cleared (as in the code)
                    raised>>
     /\ Rec("reset", 0, [none |-> TRUE])
 
+\* reset_batch() between the backward pass and step() (the statistics of this
+\* iteration are dropped; step() then runs a factor-update step without a new
+\* batch: the running averages stay, and are still averaged over the world)
+ResetMid ==
+    /\ Live /\ "ResetMid" \in Alphabet /\ raw # <<>>
+    /\ aAcc' = <<>> /\ gAcc' = <<>>
+    /\ UNCHANGED <<steps, fv, iv, fl, mini, aFac, gFac, inv, raw, pass, ckpt,
+                   raised>>
+    /\ Rec("reset", 0, [none |-> TRUE])
+
 (* ---- step() ---------------------------------------------------------- *)
 FactorStep == ~InHook /\ steps % FVal = 0
 aF1 == IF FactorStep THEN Upd(aFac, aAcc) ELSE aFac
@@ -290,7 +300,7 @@ MemoryUsage ==
 
 Next ==
     \/ \E n \in Micro : Train(n)
-    \/ FwdOnly \/ EvalPass \/ ResetBatch
+    \/ FwdOnly \/ EvalPass \/ ResetBatch \/ ResetMid
     \/ StepOK \/ StepRaises
     \/ \E a \in SchedArgs : SchedStep(a)
     \/ \E b \in SaveArgs : Save(b)
